@@ -222,7 +222,7 @@ def task_backbone_two_runs(pr, repo):
 
 
 def run(pr, repo):
-    tasks = [(task_invariance, ()), (C11.task_cell_lemma, ()), (C11.task_offsets, ()), (C11.task_check_distance, ()),
+    tasks = [(task_invariance, ()), (C11.task_cell_lemma, ()), (C11.task_offsets, ()), (C11.task_check_distance, ()), (C11.task_plumbing, ()),
              (C11.task_boxes_pair, ('S', 'S', False, (0,))), (C17.task_equivariance, ()), (C17.task_add_proton, ()),
              (C17.task_orthogonal, ()), (task_group_centres, ()), (C20.task_rotation, (), 'support'), (task_backbone_two_runs, ())]
     pr.parallel(tasks)
